@@ -151,7 +151,7 @@ def lower_limits(prog, rep):
 
 
 def finite(prog, rep):
-    for q in (f"{JM}.MultivariateModel.cdf", f"{JM}.TransformedModel.cdf", f"{JM}.TransformedModel.empirical_cdf"):
+    for q in (f"{JM}.MultivariateModel.cdf", f"{JM}.TransformedModel.cdf", f"{JM}.TransformedModel.empirical_cdf", f"{JM}.TransformedModel.pdf"):
         fn = prog.implementation(q)   # a cdf that only delegates to the inherited one is the inherited one
         rep.analysed(fn)
         b = builder(prog, fn)
